@@ -4,7 +4,7 @@
    to /repo by the correspondence check on every run). *)
 From Coq Require Import List ZArith Lia Bool.
 From RecordUpdate Require Import RecordSet.
-From Sim Require Import Map Variant Current Kernel Queue Net Pcap SimState Sim RegistryProofs SockProofs QueueProofs.
+From Sim Require Import Map Variant Current Kernel Queue Net Pcap SimState Sim RegistryProofs SockProofs QueueProofs RxProofs AcceptProofs.
 Import ListNotations.
 Import RecordSetNotations.
 Local Open Scope Z_scope.
@@ -34,3 +34,66 @@ Theorem C07_repairs_in_place :
 Proof. split; reflexivity. Qed.
 Print Assumptions C07_repairs_in_place.
 
+
+(* ---- pairing: for every interleaving of arriving SYNs, accept calls and cancels ---- *)
+Theorem C07_accepts_are_matched_in_arrival_order_each_once :
+  forall evs, let b := fold_left bk_step evs bk_init in bk_matched b ++ bk_conns b = syns evs.
+Proof. exact accepts_are_matched_in_arrival_order. Qed.
+Print Assumptions C07_accepts_are_matched_in_arrival_order_each_once.
+
+Theorem C07_kth_accept_gets_kth_arrival :
+  forall evs k ci,
+  nth_error (bk_matched (fold_left bk_step evs bk_init)) k = Some ci -> nth_error (syns evs) k = Some ci.
+Proof. exact kth_accept_gets_kth_arrival. Qed.
+Print Assumptions C07_kth_accept_gets_kth_arrival.
+
+Theorem C07_pairing_example :
+  let b := fold_left bk_step [BSyn 7; BSyn 8; BAccept; BSyn 9; BAccept; BAccept; BCancel; BAccept; BSyn 10] bk_init in
+  bk_matched b = [7; 8; 9; 10] /\ bk_conns b = [] /\ bk_pending b = false.
+Proof. exact bk_example. Qed.
+Print Assumptions C07_pairing_example.
+
+(* bk_check is what acc_check_queue does to the backlog; a SYN is appended at the end *)
+Theorem C07_check_queue_without_accept_or_connection_does_nothing :
+  forall cx a w, let t := get_tcp w a in
+  t_open t = true -> pending_of t = false \/ a_conns t = [] -> acc_check_queue cx a w = (w, []).
+Proof. exact check_queue_idle. Qed.
+Print Assumptions C07_check_queue_without_accept_or_connection_does_nothing.
+
+Theorem C07_check_queue_pops_the_oldest_connection :
+  forall cx a w ci rest peer,
+  let t := get_tcp w a in
+  t_open t = true -> pending_of t = true -> a_conns t = ci :: rest -> a_into t = Some peer ->
+  let peer_ep := if d12_accept_visible_ep (cv cx) then ch_vis0 (get_chan w ci) else ch_ep0 (get_chan w ci) in
+  let w0 := set_tcp w a (t <| a_conns := rest |> <| a_want_ep := false |>) in
+  acc_check_queue cx a w =
+    (let (w1, c1) := tcp_internal_connect cx peer (t_bound t) ci w0 in
+     let p := {| p_type := PSynAck; p_ec := 0; p_buf := []; p_from := t_bound t; p_overhead := 28;
+                 p_hops := ch_hops0 (get_chan w1 ci); p_chan := Some ci; p_seq := 0; p_bytectr := 0; p_drop := None |} in
+     let (w2, c2) := cfwd cx p w1 in
+     let t2 := get_tcp w2 a in
+     let epargs := if a_want_ep t then ep_fields peer_ep else [] in
+     let c3 := match a_h t2, a_h2 t2 with
+               | Some h, _ => [KPost (TUser h ([EC_OK] ++ epargs))]
+               | None, Some h => [KPost (TUser h [EC_OK; peer])]
+               | None, None => []
+               end in
+     let t3 := match a_h t2 with Some _ => t2 <| a_h := None |> | None => t2 <| a_h2 := None |> end in
+     (set_tcp w2 a (t3 <| a_into := None |>), [] ++ c1 ++ c2 ++ c3)).
+Proof. exact check_queue_pops_the_oldest. Qed.
+Print Assumptions C07_check_queue_pops_the_oldest_connection.
+
+Theorem C07_syn_is_appended_at_the_end :
+  forall cx a p w ci, p_type p = PSyn -> p_chan p = Some ci ->
+  acc_incoming cx a p w =
+    acc_check_queue cx a (set_tcp w a (get_tcp w a <| a_conns := a_conns (get_tcp w a) ++ [ci] |>)).
+Proof. exact syn_is_appended. Qed.
+Print Assumptions C07_syn_is_appended_at_the_end.
+
+(* the accepted socket's local endpoint is the listening endpoint; it is attached to that connection *)
+Theorem C07_accepted_socket_is_attached :
+  forall cx peer ep ci w,
+  let t := get_tcp (fst (tcp_internal_connect cx peer ep ci w)) peer in
+  t_chan t = Some ci /\ t_bound t = ep.
+Proof. exact accepted_socket_is_attached. Qed.
+Print Assumptions C07_accepted_socket_is_attached.
